@@ -18,9 +18,9 @@ from .core import Case, cOD, clist, cstr
 ID = "C18"
 PROPS_FILE = "Props/C18.v"
 IMPORTS = "From Verde Require Import Model.Xarray."
-SHARD = 40
+SHARD = 64
 RULE = ("every (rows, cols, #data variables 1..4 (and data=None), #extra coordinates 0..3) configuration with rows, cols in 1..R "
-        "(R=4 quick, 6 thorough; single row, single column and non-square included), each as 1-D axis vectors and as 2-D meshgrids, "
+        "(R=4 quick, 6 thorough; single row, single column and non-square included), each as 1-D axis vectors and as 2-D meshgrids (quick: the two styles alternate over the configuration lattice), "
         "with non-uniform non-monotonic axes, easting/northing from disjoint ranges and all-distinct data/extra values (so that any "
         "transposition, swap, flip or mis-pairing changes the output), default and custom dims (including names that swap the words "
         "northing/easting), single-array / tuple data and str / list / tuple names; meshgrids perturbed within the allclose tolerance "
@@ -34,7 +34,8 @@ RULE = ("every (rows, cols, #data variables 1..4 (and data=None), #extra coordin
         "Datasets assembled coordinates-first (make_xarray_grid(data=None) then item assignment, DataArray.to_dataset(), "
         "xr.Dataset(coords=...) then assign) whose Dataset-level dimension order is the reverse of their variables' with 1..3 2-D extra "
         "coordinates; single-row (1 x n) and single-column (n x 1) 2-D coordinate inputs that are not meshgrids (northing varying along "
-        "the row / easting varying down the column) with genuine single row / column meshgrids as controls; NaN-valued cells (a few cells, a whole row or column, one variable only, "
+        "the row / easting varying down the column) with genuine single row / column meshgrids as controls; meshgrids whose two coordinates differ in magnitude by 1e3 .. 1e7 (either way round) with one "
+        "node of the small coordinate displaced by 100x its own allclose tolerance (rejected) or 1/100 of it (accepted); NaN-valued cells (a few cells, a whole row or column, one variable only, "
         "one cell in every variable, only extra coordinates, a whole variable, a third of all entries) in data and extra coordinates for "
         "make_xarray_grid, the round trip and grid_to_table on Datasets / DataArrays / members / coordinates-first Datasets, NaN compared "
         "position by position; NaN inside 2-D coordinates (rejected); arrays->grid->table round trips; "
@@ -587,8 +588,8 @@ def generate(tier, seed, mixed=True):
         for nd in range(0, 5):
             for nx in range(0, 4):
                 for two_d in (False, True):
-                    if quick and nd == 0 and nx > 1:
-                        continue
+                    if quick and ((nd == 0 and nx > 1) or (nn + ne + nd + nx) % 2 != int(two_d)):
+                        continue        # quick: the 1-D / 2-D styles alternate over the configuration lattice
                     k += 1
                     a = build(rnd, nn, ne, nd, nx, two_d, dims=DIMS[k % len(DIMS)])
                     cases.append(case_make(vd, a, "make-2d" if two_d else "make-1d", "make"))
@@ -715,6 +716,39 @@ def generate(tier, seed, mixed=True):
                 cases.append(case_round(vd, a, kind, "round"))
             else:
                 cases.append(case_to_from(vd, np.asarray(a["ce"]), np.asarray(a["cn"]), a["extras"], kind, "to_from"))
+
+    # 3b'. coordinates of very different magnitudes (ratio 1e3 .. 1e7, either way round): allclose's tolerance is per
+    #      element, relative to THAT coordinate - one node of the small coordinate displaced by 100x its own tolerance
+    #      (atol + rtol * |value|), which is far below 1e-5 times the other coordinate, is not a meshgrid; displaced by
+    #      1/100 of its own tolerance it is accepted
+    sc_shapes = [s for s in shapes if s[0] >= 2 and s[1] >= 2]
+    for it in range(48 if quick else 600):
+        nn, ne = rnd.choice(sc_shapes)
+        ratio = 10.0 ** rnd.choice([3, 4, 5, 6, 7])
+        small_scale = rnd.choice([1.0, 30.0, 1000.0])
+        big_scale = small_scale * ratio
+        small_is_east = bool(it % 2)
+        ns, nb = (ne, nn) if small_is_east else (nn, ne)
+        small = [small_scale * x / 32.0 for x in rnd.sample(range(-32, 33), ns)]   # may contain 0: its tolerance is atol alone
+        large = [big_scale * (1 + x / 64.0) * rnd.choice([-1, 1]) for x in rnd.sample(range(0, 64), nb)]
+        e2, n2 = (small, large) if small_is_east else (large, small)
+        a = build(rnd, nn, ne, rnd.randint(1, 2), rnd.randint(0, 1), True, dims=rnd.choice(DIMS))
+        E, N = np.meshgrid(np.array(e2), np.array(n2))
+        a["ce"], a["cn"] = E.copy(), N.copy()
+        tgt = a["ce"] if small_is_east else a["cn"]
+        i, j = rnd.randrange(nn), rnd.randrange(ne)
+        own_tol = 1e-8 + 1e-5 * abs(tgt[i, j])
+        reject = (it // 2) % 3 != 2
+        delta = (100.0 if reject else 0.01) * own_tol * rnd.choice([-1, 1])
+        tgt[i, j] = tgt[i, j] + delta
+        kind = ("reject-scale-" if reject else "make-scale-approx-") + ("smallE" if small_is_east else "smallN")
+        pick = it % 3 if reject else (it // 6) % 3
+        if pick == 0:
+            cases.append(case_make(vd, a, kind, "make"))
+        elif pick == 1:
+            cases.append(case_to_from(vd, np.asarray(a["ce"]), np.asarray(a["cn"]), a["extras"], kind, "to_from"))
+        else:
+            cases.append(case_round(vd, a, kind, "round"))
 
     # 3c. Datasets assembled coordinates-first: Dataset-level dims are (d1, d0), the variables' (d0, d1)
     hows = ["make-none", "to_dataset", "xr-coords"]
